@@ -85,6 +85,17 @@ def gen_written(rng):
         spec["part_mod"] = 3          # partition values are reduced to at most 3 distinct ones when the frame is built
         part = [cs["name"]]
         o["file_scheme"] = "hive"
+        if rng.random() < 0.35:
+            # a second level
+            k2 = rng.choice([x for x in ["str", "int8", "bool"] if x != k])
+            spec["cols"].append({"name": "q_%s" % k2, "kind": k2, "nulls": "none", "seed": rng.randrange(1 << 30)})
+            part = part + ["q_%s" % k2]
+    elif 0 < n <= 65 and rng.random() < 0.06:
+        # partition_on passed for a SIMPLE file: nothing is partitioned, the column is an ordinary stored column
+        k = rng.choice(["int8", "str", "bool"])
+        spec["cols"].append({"name": "p_%s" % k, "kind": k, "nulls": "none", "seed": rng.randrange(1 << 30)})
+        part = ["p_%s" % k]
+        o["file_scheme"] = "simple"
     o["partition_on"] = part
     extra = []
     if rng.random() < 0.3 and n > 0:
@@ -108,6 +119,10 @@ def gen_written(rng):
     elif isinstance(hn, list):
         o["has_nulls"] = sorted(set(hn) | set(need))
     case = {"source": "written", "spec": spec, "wopts": o, "extra": extra}
+    if part and o["file_scheme"] == "hive":
+        # PARTIAL views of a partitioned dataset: one part file opened alone, the first top-level partition directory (no
+        # _metadata inside), the list of the part files below it (no root=), the list of all part files
+        case["view"] = rng.choice([None, None, "single_file", "subdir", "sublist", "list_all"])
     # the pandas metadata removed from the footer ON DISK (public API update_file_custom_metadata): the file as a
     # reader without that key sees it - the null-evidence path of _dtypes
     case["nomd"] = bool(o["file_scheme"] == "simple" and rng.random() < 0.3)
@@ -122,9 +137,17 @@ def build_written(case, root):
     from fastparquet import writer
     spec, o = case["spec"], case["wopts"]
     df = F.build(spec)
-    if o.get("partition_on"):
-        c = o["partition_on"][0]
+    for lvl, c in enumerate(o.get("partition_on") or []):
         s = df[c]
+        if lvl == 1:
+            # second level: two values, not aligned with the first level's
+            if str(s.dtype) == "int8":
+                df[c] = ((df.index.values if False else __import__("numpy").arange(len(s))) // 2 % 2).astype("int8")
+            elif str(s.dtype) == "bool":
+                df[c] = [(i // 2) % 2 == 0 for i in range(len(s))]
+            else:
+                df[c] = ["s%d" % ((i // 2) % 2) for i in range(len(s))]
+            continue
         if str(s.dtype) == "int8":
             df[c] = (s % spec.get("part_mod", 3)).astype("int8")
         elif str(s.dtype) in ("object", "str", "string"):
@@ -187,10 +210,36 @@ def gen_spliced(rng):
     return {"source": "spliced", "nested": NESTED_SRC, "fields": fields, "spec": spec, "wopts": o, "extra": [], "nomd": False}
 
 
+def apply_view(case, path):
+    v = case.get("view")
+    if not v or not os.path.isdir(path):
+        return path
+    files = []
+    for dp, dns, fns in os.walk(path):
+        dns.sort()
+        for f in sorted(fns):
+            if f.endswith(".parquet"):
+                files.append(os.path.join(dp, f))
+    files.sort()
+    if not files:
+        return path
+    if v == "single_file":
+        return files[0]
+    if v == "list_all":
+        return files
+    top = os.path.join(path, os.path.relpath(files[0], path).split(os.sep)[0])
+    if v == "subdir":
+        return top
+    return [f for f in files if f.startswith(top + os.sep)]
+
+
 def open_case(case, root):
     """-> path of the dataset of `case` (written now, spliced, or the foreign file), original frame or None"""
     if case["source"] == "written":
-        return build_written(case, root)
+        path, df = build_written(case, root)
+        if case.get("view"):
+            return apply_view(case, path), None
+        return path, df
     if case["source"] == "spliced":
         flat, _ = build_written(case, root)
         out = os.path.join(root, "spliced.parquet")
@@ -445,6 +494,19 @@ def examine(case, path, pq=None, ctx=None):
         act_cat = {c for c in df.columns if isinstance(df[c].dtype, pd.CategoricalDtype)}
         if exp_cat != act_cat:
             fail("categories", "set", "categorical per the handle: %s; categorical in the frame: %s" % (sorted(exp_cat), sorted(act_cat)))
+    # partition columns reported (partition_names / cats) = partition columns read: columns that come from the PATHS of the
+    # row groups this handle holds (a partial view of a partitioned dataset shows fewer levels; a simple file shows none)
+    try:
+        pnames = list(pf.partition_names)
+    except Exception as e:        # noqa
+        pnames = None
+        fail("partitions", "names-raise", "partition_names raises %s: %s" % (type(e).__name__, str(e)[:100]))
+    if pnames is not None and pf.row_groups:
+        stored = {".".join(c.meta_data.path_in_schema[:1]) for c in pf.row_groups[0].columns}
+        from_paths = [c for c in (list(df.columns) + [i for i in (idx or []) if i]) if c in pcats and c not in stored] if ro["columns"] is None else None
+        if pnames != list(pcats) or any(p in cols for p in pnames) or (from_paths is not None and not multi_cols and sorted(from_paths) != sorted(pnames)):
+            fail("partitions", "names", "partition_names %r, cats %r, stored columns %r; columns of the frame that are not stored in the files: %r" % (
+                pnames, list(pcats), sorted(cols)[:8], from_paths))
     for c, vals in pcats.items():
         if not multi_cols and c in df.columns and isinstance(df[c].dtype, pd.CategoricalDtype):
             got = list(df[c].cat.categories)
@@ -477,6 +539,12 @@ def examine(case, path, pq=None, ctx=None):
     ccase = {"source": case["source"], "file": case.get("rel") or {"spec": case["spec"], "wopts": case["wopts"], "extra": case.get("extra"), "nomd": case.get("nomd"),
                                                                     "nested": case.get("fields")}, "pn": pn,
              "ropts": ro, "strip": case.get("strip")}
+    flat_names = [name for name, f in fields if f.num_children in (None, 0)]
+    if any(not set(flat_names) <= {".".join(c.meta_data.path_in_schema) for c in rg.columns} for rg in pf.row_groups if rg.num_rows):
+        # row groups that hold no chunk of some column (files with different columns put together): the code then types int/bool
+        # columns from the null evidence only (fix in _dtypes); the model's `predict` has no such input - not compared
+        ctx.count("skipped", "predict on a dataset whose row groups lack chunks of some column")
+        fields = []
     for i, (name, f) in enumerate(fields):
         ent = md.get(name)
         nt = str((ent or {}).get("numpy_type", ""))
@@ -519,6 +587,14 @@ def examine(case, path, pq=None, ctx=None):
     mset = None if not mc else sorted(x.decode() for x in mc[0])
     ctx.correspondence("check_categories ~ ParquetFile.check_categories", {**ccase, "categ": categ}, mset, None if final_cats is None else sorted(final_cats))
     ctx.correspondence("count ~ ParquetFile.count()", ccase, pq.call("count", rg_rows), cnt)
+    if pnames is not None:
+        try:
+            meta_names = [str(x) for x in pf.partition_meta]
+        except Exception:        # noqa
+            meta_names = []
+        mpn = pq.call("partition_names", [c.encode() for c in pcats], len(pf.row_groups), [m.encode() for m in meta_names])
+        ctx.correspondence("PartNames.partition_names ~ ParquetFile.partition_names", {**ccase, "cats": list(pcats), "meta": meta_names},
+                           [bytes(x).decode() for x in (mpn or [])], [str(x) for x in pnames])
     stored_ix = []
     for ic in (pf.pandas_metadata.get("index_columns", []) if has_md else []):
         if isinstance(ic, str):
@@ -734,6 +810,7 @@ def run(ctx):
     from harness import handleprog as HP
     HP.stream(ctx, nds=20 if ctx.quick() else 150, nprog=4 if ctx.quick() else 8, register_obligations=True)
     multicat_stream(ctx, 40 if ctx.quick() else 400)
+    evolve_stream(ctx, 60 if ctx.quick() else 600)
     rng = ctx.rng
     ctx.rule = ("datasets: (a) frames of C01 (harness/frames.py: every dtype kind x null patterns, sizes 0..257, optional index incl. "
                 "nullable/tz/categorical index kinds) written by the real writer under the option tuples of harness/rt.py (row-group offsets, "
@@ -754,7 +831,7 @@ def run(ctx):
     ctx.extra["foreign_files"] = len(foreign)
     sources = []
     cdir = os.path.join(C.VERIF, "corpus", "C17")
-    corpus = [json.load(open(os.path.join(cdir, f))) for f in sorted(os.listdir(cdir)) if f.endswith(".json") and not f.startswith("hp_")] if os.path.isdir(cdir) else []
+    corpus = [json.load(open(os.path.join(cdir, f))) for f in sorted(os.listdir(cdir)) if f.endswith(".json") and not f.startswith(("hp_", "ev_"))] if os.path.isdir(cdir) else []
     ctx.extra["corpus_cases"] = len(corpus)
     for rel in foreign:
         sources.append({"source": "foreign", "rel": rel})
@@ -807,6 +884,7 @@ def run(ctx):
             rc.count("opt.dtypes", "%s/%s" % (bool(case["ropts"]["dtypes"]), case["ropts"].get("dtypes_base")))
             rc.count("opt.empty_selection", case["ropts"].get("empty"))
             rc.count("opt.strip", (case.get("strip") or {}).get("mode"))
+            rc.count("view", case.get("view") or ("simple+partition_on" if case["source"] == "written" and case["wopts"].get("partition_on") and case["wopts"]["file_scheme"] == "simple" else "whole"))
             rc.count("pandas metadata", "removed on disk" if case.get("nomd") else ("foreign" if case["source"] == "foreign" else ("none (spliced)" if case["source"] == "spliced" else "as written")))
             rc.count("status", st)
             if orig is not None and st == "ok":
@@ -982,6 +1060,148 @@ def examine_multicat(case, root):
     return fails
 
 
+# ---------------------------------------------------------------------------------------------
+# schema evolution across the files of a dataset without _metadata: a column of every dtype family present only in the
+# first / a middle / the last file(s), 2 files (legacy path of metadata_from_many) and >= 3 files (footer fast path), opened as
+# a directory or a list: the dtype the handle reports = the dtype read, the read does not raise, rows of files without the
+# column are MISSING (never a silent False / 0), rows of files with it hold the written values
+
+EVOLVE_KINDS = ["int64", "int32", "uint8", "bool", "float64", "str", "dt_us", "dttz", "Int64", "boolean", "cat"]
+
+
+def gen_evolve(rng):
+    k = rng.choice([2, 2, 3, 3, 4, 5])
+    cols = []
+    for j in range(rng.choice([1, 1, 2])):
+        present = sorted(rng.sample(range(k), rng.randint(1, k - 1)))
+        if rng.random() < 0.5:
+            present = rng.choice([[0], [k - 1], list(range(1, k)), list(range(k - 1))])
+        cols.append({"name": "x%d" % j, "kind": rng.choice(EVOLVE_KINDS), "present": present})
+    return {"source": "evolve", "files": k, "rows": rng.choice([1, 3, 4]), "cols": cols, "open": rng.choice(["dir", "list", "list"]),
+            "pn": rng.random() < 0.75, "columns_subset": rng.random() < 0.3}
+
+
+def _evolve_values(kind, n, off):
+    import numpy as np
+    import pandas as pd
+    i = np.arange(n) + off
+    if kind in ("int64", "int32", "uint8"):
+        return (i % 200).astype(kind)
+    if kind == "bool":
+        return (i % 2 == 0)
+    if kind == "float64":
+        return i / 4.0
+    if kind == "str":
+        return ["v%d" % x for x in i]
+    if kind == "dt_us":
+        return pd.to_datetime(1_600_000_000 + i, unit="s").astype("datetime64[us]")
+    if kind == "dttz":
+        return pd.Series(pd.to_datetime(1_600_000_000 + i, unit="s")).dt.tz_localize("UTC").dt.tz_convert("Europe/Berlin")
+    if kind == "Int64":
+        return pd.array([int(x) for x in i], dtype="Int64")
+    if kind == "boolean":
+        return pd.array([bool(x % 2) for x in i], dtype="boolean")
+    return pd.Categorical([["a", "b", "c"][x % 3] for x in i], categories=["a", "b", "c"])
+
+
+def examine_evolve(case, root):
+    import numpy as np
+    import pandas as pd
+    from fastparquet import ParquetFile, write
+    dn = os.path.join(root, "evolve")
+    shutil.rmtree(dn, ignore_errors=True)
+    os.makedirs(dn)
+    files, expect = [], {c["name"]: [] for c in case["cols"]}
+    n = case["rows"]
+    for i in range(case["files"]):
+        df = pd.DataFrame({"id": np.arange(n, dtype="int64") + 100 * i, "s": ["r%d" % (100 * i + j) for j in range(n)]})
+        for c in case["cols"]:
+            if i in c["present"]:
+                v = _evolve_values(c["kind"], n, 10 * i)
+                df[c["name"]] = v
+                expect[c["name"]] += [str(x) for x in pd.Series(v).astype(object).tolist()]
+            else:
+                expect[c["name"]] += [None] * n
+        fn = os.path.join(dn, "part.%i.parquet" % i)
+        write(fn, df)
+        files.append(fn)
+    base = {"source": "evolve", "component": "dtypes", "open": case["open"], "pandas_nulls": case["pn"], "files": "2" if case["files"] == 2 else ">=3"}
+    fails = []
+    try:
+        pf = ParquetFile(files if case["open"] == "list" else dn, pandas_nulls=case["pn"])
+        reported = dict(pf._dtypes(None))
+        cols = list(pf.columns)
+        cnt = pf.count()
+    except Exception as e:        # noqa  (refusing to combine the files is a legitimate answer: nothing is reported)
+        return [], "refused: %s" % type(e).__name__
+    kw = {}
+    if case["columns_subset"]:
+        kw["columns"] = [c for c in cols if c != "s"]
+    try:
+        out = ParquetFile(files if case["open"] == "list" else dn, pandas_nulls=case["pn"]).to_pandas(**kw)
+    except Exception as e:        # noqa
+        return [({**base, "what": "read-raises", "kinds": sorted({c["kind"] for c in case["cols"]})},
+                 "handle reports columns %s dtypes %s; to_pandas raises %s: %s" % (cols, {k: str(v) for k, v in reported.items()}, type(e).__name__, str(e)[:140]))], "ok"
+    if len(out) != cnt:
+        fails.append(({**base, "what": "rows"}, "count() %d, read %d rows" % (cnt, len(out))))
+    want = [c for c in cols if c != "s"] if case["columns_subset"] else cols
+    if list(out.columns) != want:
+        fails.append(({**base, "what": "columns"}, "handle reports columns %s, the frame has %s" % (want, list(out.columns))))
+    for c in case["cols"]:
+        name = c["name"]
+        if name not in out.columns:
+            if name in cols:
+                fails.append(({**base, "what": "columns", "kind": c["kind"]}, "column %r reported but not read" % name))
+            continue            # (a column the combined schema does not have is neither reported nor read)
+        if D.dt_of(reported[name]) != D.dt_of(out[name].dtype):
+            fails.append(({**base, "what": "column-dtype", "kind": c["kind"]}, "column %r (%s, in files %s of %d): reported %s, read %s" % (
+                name, c["kind"], c["present"], case["files"], reported[name], out[name].dtype)))
+        got = [None if (x is None or x is pd.NA or x is pd.NaT or (isinstance(x, float) and np.isnan(x))) else str(x) for x in out[name].astype(object).tolist()]
+        exp = expect[name]
+        if len(got) == len(exp):
+            bad = [j for j in range(len(exp)) if (exp[j] is None) != (got[j] is None)]
+            if bad:
+                fails.append(({**base, "what": "missing-rows", "kind": c["kind"]}, "column %r (%s, in files %s of %d, read as %s): row %d is %r, written %r (rows of a file without the column must be missing)" % (
+                    name, c["kind"], c["present"], case["files"], out[name].dtype, bad[0], got[bad[0]], exp[bad[0]])))
+    return fails, "ok"
+
+
+def evolve_job(case):
+    import tempfile
+    import warnings
+    warnings.filterwarnings("ignore")
+    tmp = tempfile.mkdtemp(prefix="verif-C17-ev-", dir="/tmp")
+    try:
+        return examine_evolve(case, tmp)
+    finally:
+        shutil.rmtree(tmp, ignore_errors=True)
+
+
+def evolve_stream(ctx, n):
+    cdir = os.path.join(C.VERIF, "corpus", "C17")
+    cases = [json.load(open(os.path.join(cdir, f))) for f in sorted(os.listdir(cdir)) if f.startswith("ev_") and f.endswith(".json")] if os.path.isdir(cdir) else []
+    cases += [gen_evolve(ctx.rng) for _ in range(n)]
+    for k in (2, 3, 4):                 # every family in the first / the last file only, deterministically
+        for kind in EVOLVE_KINDS:
+            for present in ([0], [k - 1]):
+                cases.append({"source": "evolve", "files": k, "rows": 3, "cols": [{"name": "x0", "kind": kind, "present": present}], "open": "list",
+                              "pn": True, "columns_subset": False})
+    res = C.pmap(evolve_job, cases, init=_winit2, nproc=min(8, os.cpu_count() or 4), job_timeout=300)
+    for case, r in zip(cases, res):
+        ctx.case(case, False)
+        ctx.count("source", "evolve")
+        if isinstance(r, dict) and "__crashed__" in r:
+            ctx.fail({"component": "native-crash", "what": "crash", "source": "evolve", "file": None, "invalid_categories": False}, case, r["__crashed__"])
+            continue
+        fails, status = r
+        ctx.count("evolve.status", status)
+        ctx.count("evolve.files/open", "%d/%s" % (case["files"], case["open"]))
+        for c in case["cols"]:
+            ctx.count("evolve.kind", c["kind"])
+        for cls, det in fails:
+            ctx.fail(cls, case, det)
+
+
 def multicat_job(case):
     import tempfile
     import warnings
@@ -1036,6 +1256,14 @@ def replay(rep):
     if "handle_program" in case:
         from harness import handleprog as HP
         return HP.replay_case(case["handle_program"])
+    if case.get("source") == "evolve":
+        fails, status = evolve_job(case)
+        print("dataset of %d files without _metadata, columns %s (present = the files that have the column), opened as %s: %s" % (case["files"], case["cols"], case["open"], status))
+        for cls, det in fails:
+            print("PROPERTY FAILS [%s/%s]: %s" % (cls["component"], cls["what"], det))
+        if not fails:
+            print("property holds on this input now")
+        return 1 if fails else 0
     if case.get("source") == "multicat":
         fails = multicat_job(case)
         print("multi-file dataset, files with %s categories in column 'c', opened as %s, categories=%s" % (case["sizes"], case["open"], case["cats_arg"]))
